@@ -53,7 +53,9 @@ RULE = ("exhaustive well-formed signatures over names {a,b,c}, 5 kinds, default 
         "expression grammar (operators with/without grouping, calls, attributes, tuples, strings vs names, f-strings) mutated by leaf/operator/"
         "regrouping(parenthesis insertion or removal in the source)/swap/wrap/retype edits; all ordered pairs of a catalogue of ~115 default forms; "
         "the same signatures as instance / class / static methods of a class (calls through K().f / K.f); functions whose Parameters container "
-        "was edited before the comparison (histories of setitem by index/name, delitem, add, incl. failing operations, that keep a legal signature). "
+        "was edited before the comparison (histories of setitem by index/name, delitem, add, incl. failing operations, that keep a legal signature); "
+        "methods a public class only inherits (private base, two levels, swapped base) and constructors synthesised for dataclasses whose fields "
+        "change, loaded from files with griffe.load -- the dataclass pairs independently and with one load_extensions() object for both loads. "
         "A pair is non-trivial when some call binds old and not new, or something is reported, or a default changed; distinct by (old,new) source text")
 TRUSTED = ["translator harness/translate/c10_tables.py (whitelisted AST shapes of diff.py / expressions.py; fails closed)",
            "abstraction python ast -> model default tree (harness/props/c10.py:abstract), checked injective w.r.t. ast.dump on every explored pair"]
@@ -62,6 +64,7 @@ ASSUMPTIONS = ["functions are loaded by static analysis (griffe.visit): defaults
 TRANSLATOR_NAME = "harness/translate/c10_tables.py"
 
 NAMES = ["a", "b", "c", "z", "y"]
+ALL = NAMES + ["self"]      # name table of the model (`self` only occurs in synthesised dataclass constructors)
 KN = ["PO", "PK", "VP", "KO", "VK"]
 
 
@@ -162,6 +165,73 @@ def src_in(sig, where="module", plain=False):
         return d
     deco = {"instance": "", "class": "    @classmethod\n", "static": "    @staticmethod\n"}[where]
     return "class K:\n" + deco + "    " + d
+
+
+HIER = ["inherited", "inherited-2", "swapped-base"]
+
+
+def dataclass_src(fields):
+    """A dataclass without hand-written __init__ whose fields are the given (name, PK|KO, default) entries."""
+    lines = ["from dataclasses import KW_ONLY, dataclass", "", "", "@dataclass", "class K:"]
+    kw = False
+    for nm, k, d in fields:
+        if k == "KO" and not kw:
+            lines.append("    _: KW_ONLY")
+            kw = True
+        lines.append(f"    {nm}: int" + (f" = {d}" if d else ""))
+    if not fields:
+        lines.append("    pass")
+    return "\n".join(lines)
+
+
+def pair_sources(o, n, where):
+    """Old and new source text of a package in which the compared function is reached through inheritance or is the
+    constructor synthesised for a dataclass (then o and n are `self` + the fields)."""
+    if where == "inherited":
+        t = "class _B:\n    {}\n\n\nclass K(_B):\n    pass"
+        return t.format(src(o)), t.format(src(n))
+    if where == "inherited-2":
+        t = "class _A:\n    {}\n\n\nclass _B(_A):\n    pass\n\n\nclass K(_B):\n    pass"
+        return t.format(src(o)), t.format(src(n))
+    if where == "swapped-base":
+        t = "class _B1:\n    {}\n\n\nclass _B2:\n    {}\n\n\nclass K({}):\n    pass"
+        return t.format(src(o), src(n), "_B1"), t.format(src(o), src(n), "_B2")
+    if where.startswith("dataclass"):
+        return dataclass_src(o[1:]), dataclass_src(n[1:])
+    return src_in(o, where), src_in(n, where)
+
+
+class Loader:
+    """Packages written under the run's scratch directory and loaded with griffe.load (inheritance and the dataclasses
+    extension need a loader; griffe.visit alone resolves neither)."""
+
+    def __init__(self, root):
+        self.root = root
+        self.n = 0
+        self.cache = {}
+
+    def load(self, text, extensions=None):
+        import griffe
+        if extensions is None and text in self.cache:
+            return self.cache[text]
+        d = self.root / f"load{self.n}"
+        self.n += 1
+        d.mkdir(parents=True)
+        (d / "pkg.py").write_text(text + "\n")
+        if extensions is None:
+            m = self.cache[text] = griffe.load("pkg", search_paths=[d])
+        else:
+            m = griffe.load("pkg", search_paths=[d], extensions=extensions)
+        return m
+
+    def pair(self, o, n, where):
+        so, sn = pair_sources(o, n, where)
+        if where == "dataclass-one-extensions-object":
+            # what `griffe check` / griffe.check() do: ONE load_extensions() result for the old and the new load, old first
+            import griffe
+            exts = griffe.load_extensions()
+            return self.load(so, exts), self.load(sn, exts)
+        return self.load(so), self.load(sn)
 
 
 def parse_sig(text):
@@ -301,14 +371,14 @@ def enc(sig):
     out = []
     for nm, k, d in sig:
         if k in ("VP", "VK"):
-            out.append([NAMES.index(nm), k, [NIL]])
+            out.append([ALL.index(nm), k, [NIL]])
         else:
-            out.append([NAMES.index(nm), k, [DInfo.of(d).sexp] if d else []])
+            out.append([ALL.index(nm), k, [DInfo.of(d).sexp] if d else []])
     return out
 
 
 def enc_plain(sig):
-    return [[NAMES.index(nm), k, [0] if k in ("VP", "VK") else ([1] if d else [])] for nm, k, d in sig]
+    return [[ALL.index(nm), k, [0] if k in ("VP", "VK") else ([1] if d else [])] for nm, k, d in sig]
 
 
 # ------------------------------------------------------------------------------------------------ default-expression grammar
@@ -583,8 +653,17 @@ class Cache:
         key = (tuple((nm, k, bool(d)) for nm, k, d in sig), where)
         if key not in self.fn:
             ns = {}
-            exec(compile(src_in(sig, where, plain=True), "<c10>", "exec", dont_inherit=True), ns)  # noqa: S102
-            self.fn[key] = ns["f"] if where == "module" else (ns["K"]().f if where == "instance" else ns["K"].f)
+            if where.startswith("dataclass"):
+                # the authority is the dataclasses module itself: the real class, called as K(...)
+                exec(compile(dataclass_src(tuple((nm, k, "0" if d else 0) for nm, k, d in sig[1:])), "<c10>", "exec", dont_inherit=True), ns)  # noqa: S102
+                self.fn[key] = ns["K"]
+            elif where in HIER:
+                ps = tuple((nm, k, "0" if d else 0) for nm, k, d in sig)
+                exec(compile(pair_sources(ps, ps, where)[0], "<c10>", "exec", dont_inherit=True), ns)  # noqa: S102
+                self.fn[key] = ns["K"]().f
+            else:
+                exec(compile(src_in(sig, where, plain=True), "<c10>", "exec", dont_inherit=True), ns)  # noqa: S102
+                self.fn[key] = ns["f"] if where == "module" else (ns["K"]().f if where == "instance" else ns["K"].f)
         return self.fn[key]
 
     def bindset(self, sig, where="module"):
@@ -599,17 +678,19 @@ KINDMAP = {"PARAMETER_REMOVED": "removed", "PARAMETER_CHANGED_REQUIRED": "requir
            "PARAMETER_CHANGED_KIND": "kind", "PARAMETER_CHANGED_DEFAULT": "default", "PARAMETER_ADDED_REQUIRED": "added"}
 
 
-def impl_diff(cache, old, new, where="module", mods=None):
+def impl_diff(cache, old, new, where="module", mods=None, only=None):
     import griffe
     out = []
     mo, mn = mods or (cache.module(old, where), cache.module(new, where))
     for b in griffe.find_breaking_changes(mo, mn):
+        if only is not None and not (b.obj.is_function and b.obj.name == only):
+            continue        # e.g. the attribute of a removed dataclass field: not a report on the function under test
         k = KINDMAP.get(b.kind.name)
         if k is None:
             out.append(["other:" + b.kind.value, -1])
             continue
         p = b.new_value if k == "added" else b.old_value
-        out.append([k, NAMES.index(p.name)])
+        out.append([k, ALL.index(p.name)])
     return out
 
 
@@ -620,19 +701,27 @@ def fmt_call(call):
 GAP_IDS = ["C10-F2", "C10-F4", "C10-F5", "C10-F6", "C10-F7"]
 
 
-def check_pairs(ctx, cache, pairs, stream, notes=None, where="module"):
+def check_pairs(ctx, cache, pairs, stream, notes=None, where="module", env=None):
     res = ctx.model([["xdiff", enc(o), enc(n)] for o, n in pairs])
     for idx, ((o, n), r) in enumerate(zip(pairs, res)):
-        case = {"old": src_in(o, where), "new": src_in(n, where)}
-        if where != "module":
-            case["where"] = where + " method, called through " + ("K().f" if where == "instance" else "K.f")
+        if env is not None:
+            so_, sn_ = pair_sources(o, n, where)
+            case = {"old": so_, "new": sn_, "where": where + (": K(...) calls the synthesised __init__" if where.startswith("dataclass") else ": K().f is only inherited"),
+                    "old_signature": src(o), "new_signature": src(n)}
+        else:
+            case = {"old": src_in(o, where), "new": src_in(n, where)}
+            if where != "module":
+                case["where"] = where + " method, called through " + ("K().f" if where == "instance" else "K.f")
         if r == ["bad-input"]:
             ctx.tie_failure("harness", "model rejected the encoded pair", case, case)
             continue
         mdiff, adiff, gaps, f8names, wf, just, gap, tdiff = r
         raised = None
         try:
-            idiff = impl_diff(cache, o, n, where)
+            if env is not None:
+                idiff = impl_diff(cache, o, n, where, mods=env.pair(o, n, where), only="__init__" if where.startswith("dataclass") else "f")
+            else:
+                idiff = impl_diff(cache, o, n, where)
         except Exception as e:  # noqa: BLE001
             idiff, raised = [], type(e).__name__ + ": " + str(e)[:120]
         broken = cache.bindset(o, where) - cache.bindset(n, where)
@@ -669,14 +758,14 @@ def check_pairs(ctx, cache, pairs, stream, notes=None, where="module"):
         if sorted(mdiff) != sorted(idiff):
             ctx.tie_failure("correspondence", "fdiff_m(model) vs find_breaking_changes", {"model": sorted(mdiff), "impl": sorted(idiff)}, case)
         # (O) the model's authority key vs ast.dump
-        if sorted(NAMES[i] for k, i in adiff if k == "default") != sorted(dchanged):
+        if sorted(ALL[i] for k, i in adiff if k == "default") != sorted(dchanged):
             ctx.tie_failure("oracle", "default changes by the model's ast key vs ast.dump", {"model": adiff, "ast.dump": sorted(dchanged)}, case)
-        if sorted(NAMES[i] for k, i in adiff if k == "default") != sorted(NAMES[i] for k, i in tdiff if k == "default"):
+        if sorted(ALL[i] for k, i in adiff if k == "default") != sorted(ALL[i] for k, i in tdiff if k == "default"):
             ctx.observe("keys", "text key coarser than compiled expression")
         for b in idiff:
             ctx.observe("breakage", b[0])
-        rep = {(k, NAMES[pi]) for k, pi in idiff if pi >= 0}
-        mrep = {(k, NAMES[pi]) for k, pi in mdiff}
+        rep = {(k, ALL[pi]) for k, pi in idiff if pi >= 0}
+        mrep = {(k, ALL[pi]) for k, pi in mdiff}
         # ---- the property, evaluated on the implementation ----
         if o == n and idiff:
             ctx.property_failure(case, {"identical signatures reported": idiff})
@@ -689,7 +778,7 @@ def check_pairs(ctx, cache, pairs, stream, notes=None, where="module"):
         for nm in dchanged:
             ctx.observe("default_change", "reported" if ("default", nm) in rep else "unreported")
             if ("default", nm) not in rep:
-                fid = "C10-F8" if (NAMES.index(nm) in f8names and ("default", nm) not in mrep) else None
+                fid = "C10-F8" if (ALL.index(nm) in f8names and ("default", nm) not in mrep) else None
                 a, b = DInfo.of(od[nm][1][2]), DInfo.of(nd[nm][1][2])
                 if a.value and b.value and a.value == b.value:
                     # closed arithmetic that CPython evaluates to the same value: the default VALUE did not change
@@ -712,7 +801,7 @@ def check_pairs(ctx, cache, pairs, stream, notes=None, where="module"):
         for k, pi in idiff:
             if pi < 0:
                 continue
-            nm = NAMES[pi]
+            nm = ALL[pi]
             if od.get(nm) == nd.get(nm):
                 ctx.property_failure(case, {"breakage names unchanged parameter": [k, nm]})
         # ---- justification of the model's reports: witness calls against the real binder ----
@@ -725,8 +814,8 @@ def check_pairs(ctx, cache, pairs, stream, notes=None, where="module"):
                 ctx.tie_failure("oracle", "no witness call for a non-excused report", {"breakage": b}, case)
                 continue
             wn, wk = wit[0]
-            fresh = max([NAMES.index(p[0]) for p in o + n] + [-1]) + 1
-            kw = tuple(NAMES[k] if k < len(NAMES) else f"fresh{k}" for k in wk)
+            fresh = max([ALL.index(p[0]) for p in o + n] + [-1]) + 1
+            kw = tuple(ALL[k] if k < len(ALL) else f"fresh{k}" for k in wk)
             if not (binds_real(fo, wn, kw) and not binds_real(fn, wn, kw)):
                 ctx.tie_failure("oracle", "witness call of a non-excused report does not separate old from new",
                                 {"breakage": b, "call": fmt_call((wn, kw)), "fresh": fresh}, case)
@@ -734,8 +823,8 @@ def check_pairs(ctx, cache, pairs, stream, notes=None, where="module"):
 
 def check_binder(ctx, cache, sgs, where="module"):
     """binds(model) vs real calls; through K().f / K.f of an instance / class method the interpreter adds one positional."""
-    shift = 1 if where in ("instance", "class") else 0
-    calls = [[n + shift, [NAMES.index(k) for k in kw]] for n, kw in CALLS]
+    shift = 1 if where in ("instance", "class") or where in HIER or where.startswith("dataclass") else 0
+    calls = [[n + shift, [ALL.index(k) for k in kw]] for n, kw in CALLS]
     res = ctx.model([["binds", enc_plain(s), calls] for s in sgs])
     for s, r in zip(sgs, res):
         real = [1 if c in cache.bindset(s, where) else 0 for c in CALLS]
@@ -841,11 +930,11 @@ def enc_op(op):
     if op[0] == "seti":
         return ["seti", op[1], enc_param(op[2])]
     if op[0] == "setn":
-        return ["setn", NAMES.index(op[1]), enc_param(op[2])]
+        return ["setn", ALL.index(op[1]), enc_param(op[2])]
     if op[0] == "deli":
         return ["deli", op[1]]
     if op[0] == "deln":
-        return ["deln", NAMES.index(op[1])]
+        return ["deln", ALL.index(op[1])]
     return ["add", enc_param(op[1])]
 
 
@@ -905,8 +994,8 @@ def check_histories(ctx, cache, items):
         mfo, meo, mfn, men, mdiff, gap, wf = r
         mo, reo = run_real_history(cache, o, ho)
         mn, ren = run_real_history(cache, n, hn)
-        shape = lambda ps: [[NAMES.index(p.name), KIND_OF[p.kind.name], 1 if p.default is not None else 0] for p in ps]  # noqa: E731
-        pyshape = lambda sg: [[NAMES.index(nm), k, 1 if (d or k in ("VP", "VK")) else 0] for nm, k, d in sg]  # noqa: E731
+        shape = lambda ps: [[ALL.index(p.name), KIND_OF[p.kind.name], 1 if p.default is not None else 0] for p in ps]  # noqa: E731
+        pyshape = lambda sg: [[ALL.index(nm), k, 1 if (d or k in ("VP", "VK")) else 0] for nm, k, d in sg]  # noqa: E731
         ro, rn = shape(mo.members["f"].parameters), shape(mn.members["f"].parameters)
         ctx.case(case, True)
         ctx.observe("stream", "edit-histories")
@@ -951,7 +1040,7 @@ def check_histories(ctx, cache, items):
             ctx.property_failure({**case, "call": fmt_call(sorted(broken)[0])}, {"reported": idiff, "broken_calls": len(broken)}, finding=fid)
         if fo == fn and idiff:
             ctx.property_failure(case, {"identical signatures reported": idiff})
-        rep = {(k, NAMES[pi]) for k, pi in idiff if pi >= 0}
+        rep = {(k, ALL[pi]) for k, pi in idiff if pi >= 0}
         od = {p[0]: (i, p) for i, p in enumerate(fo)}
         nd = {p[0]: (i, p) for i, p in enumerate(fn)}
         for nm in od.keys() & nd.keys():
@@ -961,8 +1050,8 @@ def check_histories(ctx, cache, items):
             if (od_ or okd in ("VP", "VK")) and not nd_ and nkd not in ("VP", "VK") and ("required", nm) not in rep:
                 ctx.property_failure(case, {"optional parameter made required not reported": nm, "reported": idiff})
         for k, pi in idiff:
-            if pi >= 0 and od.get(NAMES[pi]) == nd.get(NAMES[pi]):
-                ctx.property_failure(case, {"breakage names unchanged parameter": [k, NAMES[pi]]})
+            if pi >= 0 and od.get(ALL[pi]) == nd.get(ALL[pi]):
+                ctx.property_failure(case, {"breakage names unchanged parameter": [k, ALL[pi]]})
 
 
 def check_dval(ctx, texts):
@@ -1036,6 +1125,26 @@ def explore(ctx):
             o = random_sig(ctx.rng)
             mp.append((o, random_sig(ctx.rng) if ctx.rng.random() < 0.3 else mutate(ctx.rng, o)))
         check_pairs(ctx, cache, mp, "methods", where=where)
+    # functions a public class only inherits (private base, two levels, base swapped) and constructors synthesised for
+    # dataclasses; loaded with griffe.load from files -- the dataclass pairs once independently and once the way
+    # `griffe check` does it (one load_extensions() object for both loads)
+    env = Loader(ctx.scratch)
+    for where in HIER:
+        sub = ctx.rng.sample(S2, ctx.budget(10, 40)) + S1
+        check_binder(ctx, cache, sub, where)
+        hp = [(o, n) for o in sub for n in sub]
+        for _ in range(ctx.budget(150, 3000)):
+            o = random_sig(ctx.rng)
+            hp.append((o, random_sig(ctx.rng) if ctx.rng.random() < 0.3 else mutate(ctx.rng, o)))
+        check_pairs(ctx, cache, hp, "inherited-methods", where=where, env=env)
+    dp = []
+    for _ in range(ctx.budget(300, 4000)):
+        o = random_fields(ctx.rng)
+        n = o if ctx.rng.random() < 0.1 else (random_fields(ctx.rng) if ctx.rng.random() < 0.3 else as_fields(mutate(ctx.rng, o[1:])))
+        dp.append((o, n))
+    check_binder(ctx, cache, list({s for p in dp[:60] for s in p}), "dataclass")
+    check_pairs(ctx, cache, dp, "dataclass-constructors", where="dataclass", env=env)
+    check_pairs(ctx, cache, dp, "dataclass-constructors", where="dataclass-one-extensions-object", env=env)
     # functions whose parameters were edited through the container API before being compared
     hist = []
     for _ in range(ctx.budget(2500, 25000)):
@@ -1073,11 +1182,22 @@ def explore(ctx):
         check_pairs(ctx, cache, [(o, n) for o in sub for n in ctx.rng.sample(S3, 60)], "sampled<=3")
         ctx.cross_check_extraction([["xdiff", enc(o), enc(n)] for o, n in rp[:25] + xp[:25]])
     # model-side statement sweep over the whole <=2 space: pairs on which `statement_m` is false must be none
-    Ks = [[NAMES.index(k) for k in kw] for r in range(4) for kw in itertools.combinations(NAMES[:4], r)] + [[0, 0], [1, 3, 1]]
+    Ks = [[ALL.index(k) for k in kw] for r in range(4) for kw in itertools.combinations(NAMES[:4], r)] + [[0, 0], [1, 3, 1]]
     bad = ctx.model([["sweep", [enc_plain(s) for s in S2], 3, Ks]])[0]
     ctx.count("statement_sweep_pairs", len(S2) ** 2)
     for i, j in bad[:5]:
         ctx.tie_failure("oracle", "statement_m(model) false on a pair: C10_complete_modulo_known would be refuted", {"old": src(S2[i]), "new": src(S2[j])})
+
+
+def as_fields(sig):
+    """`self` + dataclass fields: positional-or-keyword or keyword-only, integer defaults."""
+    f = [(nm, "KO" if k in ("KO", "VK") else "PK", ("1" if d not in ("1", "2") else d) if (d or k in ("VP", "VK")) and k not in ("VP", "VK") else 0) for nm, k, d in sig if nm != "self"]
+    return (("self", "PK", 0),) + normalise(f)
+
+
+def random_fields(rng):
+    n = rng.randint(0, 4)
+    return as_fields([(x, rng.choice(["PK", "PK", "KO"]), rng.choice([0, "1", "2"])) for x in rng.sample(NAMES, n)])
 
 
 def mutate(rng, sig, dgen=None):
@@ -1166,7 +1286,7 @@ def search(ctx):
         d = impl_diff(cache, o, n)
         od = {p[0]: (i, p) for i, p in enumerate(o)}
         nd = {p[0]: (i, p) for i, p in enumerate(n)}
-        rep = {(k, NAMES[pi]) for k, pi in d if pi >= 0}
+        rep = {(k, ALL[pi]) for k, pi in d if pi >= 0}
         for nm in od.keys() & nd.keys():
             (oi, (_, okd, od_)), (ni, (_, nkd, nd_)) = od[nm], nd[nm]
             if okd in ("PO", "PK") and nkd in ("PO", "PK") and oi != ni and ("moved", nm) not in rep:
@@ -1220,8 +1340,9 @@ def replay(ctx, data):
     import griffe
     print(json.dumps(case, indent=1))
     cache = Cache()
-    where = next((w for w in PLACES if case.get("where", "module").startswith(w)), "module")
-    so, sn = parse_sig(case["old"]), parse_sig(case["new"])
+    where = next((w for w in ["dataclass-one-extensions-object", "dataclass", "inherited-2", "inherited", "swapped-base"] + PLACES
+                  if case.get("where", "module").startswith(w)), "module")
+    so, sn = parse_sig(case.get("old_signature", case["old"])), parse_sig(case.get("new_signature", case["new"]))
     if "old_edits" in case:
         # re-apply the recorded container edits (they are printed as python statements over `parameters`)
         def edited(text, edits):
@@ -1247,6 +1368,12 @@ def replay(ctx, data):
         o, n = edited(case["old"], case["old_edits"]), edited(case["new"], case["new_edits"])
         so, sn = parse_sig(case["old_after_edits"]), parse_sig(case["new_after_edits"])
         print("parameters after edits:", [p.name for p in o.members["f"].parameters], "->", [p.name for p in n.members["f"].parameters])
+    elif "old_signature" in case:
+        # inherited methods / dataclass constructors: loaded from files like in the check
+        where = case["where"].split(":")[0]
+        so, sn = parse_sig(case["old_signature"]), parse_sig(case["new_signature"])
+        env = Loader(ctx.scratch / "replay")
+        o, n = env.pair(so, sn, where)
     else:
         o = griffe.visit("m", filepath=None, code=case["old"] + "\n")
         n = griffe.visit("m", filepath=None, code=case["new"] + "\n")
